@@ -510,15 +510,21 @@ fn parse_new_float(input: &[u8]) -> NomResult<'_, OwnedTerm> {
     Ok((input, OwnedTerm::Float(value)))
 }
 
+/// Text of an ATOM_EXT / SMALL_ATOM_EXT atom: every byte is one Latin-1 character.
+fn latin1_to_str(bytes: &[u8]) -> Cow<'_, str> {
+    match str::from_utf8(bytes) {
+        Ok(ascii) if bytes.is_ascii() => Cow::Borrowed(ascii),
+        _ => Cow::Owned(bytes.iter().map(|&b| b as char).collect()),
+    }
+}
+
 fn parse_atom_latin1(input: &[u8]) -> NomResult<'_, OwnedTerm> {
     let (input, len) = be_u16(input)?;
     if len as usize > MAX_ATOM_SIZE {
         return Err(nom::Err::Failure(NomError::new(input, ErrorKind::TooLarge)));
     }
     let (input, bytes) = take(len as usize)(input)?;
-    let name = str::from_utf8(bytes)
-        .map_err(|_| nom::Err::Failure(NomError::new(input, ErrorKind::Char)))?;
-    Ok((input, OwnedTerm::Atom(Atom::new(name))))
+    Ok((input, OwnedTerm::Atom(Atom::new(latin1_to_str(bytes)))))
 }
 
 fn parse_atom_utf8(input: &[u8]) -> NomResult<'_, OwnedTerm> {
@@ -549,9 +555,7 @@ fn parse_small_atom_latin1(input: &[u8]) -> NomResult<'_, OwnedTerm> {
         return Err(nom::Err::Failure(NomError::new(input, ErrorKind::TooLarge)));
     }
     let (input, bytes) = take(len as usize)(input)?;
-    let name = str::from_utf8(bytes)
-        .map_err(|_| nom::Err::Failure(NomError::new(input, ErrorKind::Char)))?;
-    Ok((input, OwnedTerm::Atom(Atom::new(name))))
+    Ok((input, OwnedTerm::Atom(Atom::new(latin1_to_str(bytes)))))
 }
 
 fn parse_dist_header_with_cache<'a>(
@@ -1040,9 +1044,7 @@ fn parse_atom_latin1_borrowed(input: &[u8]) -> NomResult<'_, BorrowedTerm<'_>> {
         return Err(nom::Err::Failure(NomError::new(input, ErrorKind::TooLarge)));
     }
     let (input, bytes) = take(len as usize)(input)?;
-    let name = str::from_utf8(bytes)
-        .map_err(|_| nom::Err::Failure(NomError::new(input, ErrorKind::Char)))?;
-    Ok((input, BorrowedTerm::Atom(Cow::Borrowed(name))))
+    Ok((input, BorrowedTerm::Atom(latin1_to_str(bytes))))
 }
 
 fn parse_atom_utf8_borrowed(input: &[u8]) -> NomResult<'_, BorrowedTerm<'_>> {
